@@ -802,6 +802,12 @@ func (st *tunnelClientStream) readMsgLocked() (data []byte, ok bool, err error) 
 		verifYield("client.read.beforeDequeue")
 		in, ok := st.receiver.dequeue()
 		if !ok {
+			if msgLen != -1 && st.loadDone() == io.EOF {
+				// The server closed the stream with an OK status in the
+				// middle of a message. That is not a clean end of the
+				// response stream.
+				return nil, false, status.Errorf(codes.Internal, "server closed stream before response message finished (%d/%d)", len(b), msgLen)
+			}
 			return nil, true, st.loadDone()
 		}
 
